@@ -2,6 +2,7 @@ package core
 
 import (
 	"io"
+	"unicode/utf8"
 	"os"
 	"regexp"
 	"sync"
@@ -221,6 +222,14 @@ func (k *Keys) ReadKey() (key rune, isAbort bool) {
 	case len(k.macroKeys) > 0:
 		key = k.macroKeys[0]
 		k.macroKeys = k.macroKeys[1:]
+
+	case len(k.buf) > 0:
+		// Keys typed ahead (read together with the keys of the command
+		// now asking for one) come before anything still to be read.
+		var size int
+
+		key, size = utf8.DecodeRune(k.buf)
+		k.buf = k.buf[size:]
 
 	case k.waiting:
 		buf := <-k.keysOnce
